@@ -348,6 +348,20 @@ def run(tier, replay=None):
     probe = [o for o in vlib.run_harness(bins["replay_hub"], ["--probe-latest", "600"], timeout=120) if o.get("kind") == "probe"]
     if probe:
         rep.extra["earlier_deadline_probe"] = probe[0]
+    # Worker_Close / Hub_HandleWorkerClose concretised with a backlog: the hub still has unsent data for the
+    # worker when it hangs up. The spec's prediction is the same as for any close: stopped, no longer targeted.
+    cb = [o for o in vlib.run_harness(bins["replay_hub"], ["--probe-close-backlog", "6000"], timeout=180)
+          if o.get("kind") == "probe_close_backlog"]
+    if not cb or cb[0].get("error"):
+        raise vlib.ToolError("close-with-backlog scenario did not run: %s" % (cb[:1],))
+    cb = cb[0]
+    rep.extra["close_with_backlog"] = cb
+    if cb["wstate"] != cb["spec_wstate"] or cb["later_request"] != cb["spec_later_request"] or "Err" in cb["hub"]:
+        rep.violation("mismatch:close-backlog",
+                      "worker closed while the hub had unsent data for it: hub reports %s (spec %s), a later request "
+                      "answered by the only live worker gets %s after %d ms (spec %s)" % (
+                          cb["wstate"], cb["spec_wstate"], cb["later_request"], cb["later_request_ms"], cb["spec_later_request"]),
+                      cb, name="close_backlog.json")
 
     # ---------------------------------------------------------------- collect the TLC jobs
     for fut in futures:
